@@ -62,12 +62,22 @@ fn build(sim: &Sim, st: &C18State, spec: &TxSpec) -> Option<Built> {
         if st.pool.is_empty() {
             return None;
         }
-        let (_, tx, _) = &st.pool[rng.usize_below(st.pool.len())];
+        let inputs_known = |tx: &TransactionView| {
+            tx.input_pts_iter().all(|op| {
+                st.pool.iter().any(|(h, _, _)| h == &op.tx_hash())
+                    || c.storage.get_transaction_with_header(&op.tx_hash()).is_some()
+            })
+        };
+        // prefer (half of the time) a member that has lost a pending parent to eviction
+        let orphans: Vec<usize> = (0..st.pool.len()).filter(|i| !inputs_known(&st.pool[*i].1)).collect();
+        let pick = if !orphans.is_empty() && rng.chance(1, 2) {
+            orphans[rng.usize_below(orphans.len())]
+        } else {
+            rng.usize_below(st.pool.len())
+        };
+        let (_, tx, _) = &st.pool[pick];
         // still verifiable only if its inputs are still known (a pending parent may have been evicted)
-        let known = tx.input_pts_iter().all(|op| {
-            st.pool.iter().any(|(h, _, _)| h == &op.tx_hash())
-                || c.storage.get_transaction_with_header(&op.tx_hash()).is_some()
-        });
+        let known = inputs_known(tx);
         let why = if known { "resubmission of a pool member" } else { "resubmission of a pool member whose pending parent was evicted" };
         return Some(Built { tx: tx.clone(), valid: known, why: why.into(), groups: 0 });
     }
